@@ -227,6 +227,7 @@ func genRetCase(rng *rand.Rand) *retCase {
 		c.Err = []string{"new", "custom", "wrapped"}[rng.Intn(3)]
 		c.ErrMsg = core.B([]string{"boom", "", "e: x", "\xff"}[rng.Intn(4)])
 	}
+	c.Method = []string{"GET", "GET", "POST", "HEAD", "HEAD"}[rng.Intn(5)]
 	if rng.Intn(8) == 0 {
 		c.Custom = []string{"app", "request", "request-late"}[rng.Intn(3)]
 	}
@@ -288,12 +289,16 @@ func judgeRet(w *core.W, c *retCase) {
 	}
 	marker := 0
 	hs = append(hs, h, func() { marker++ })
-	f.Get("/r", hs...)
+	meth := c.Method
+	if meth == "" {
+		meth = "GET"
+	}
+	f.Route(meth, "/r", hs)
 	spy := &retSpy{h: http.Header{}}
 	var pan interface{}
 	func() {
 		defer func() { pan = recover() }()
-		f.ServeHTTP(spy, &http.Request{Method: "GET", URL: &url.URL{Path: "/r"}, Header: http.Header{}})
+		f.ServeHTTP(spy, &http.Request{Method: meth, URL: &url.URL{Path: "/r"}, Header: http.Header{}})
 	}()
 	fast := !c.Reflect && c.Shape == "int,string"
 	path := "reflective"
@@ -317,13 +322,14 @@ func judgeRet(w *core.W, c *retCase) {
 	}
 	w.Count("class:" + c.Shape + "/" + cls)
 	w.Count("path:" + path)
+	w.Count("method:" + meth)
 	if c.Custom != "" {
 		w.Count("custom:" + c.Custom)
 	}
 	if c.PreRet {
 		w.Count("silent-handlers-returned-values")
 	}
-	w.NonTrivial(core.Hash64(c.Shape, cls, path, c.Custom, fmt.Sprint(c.Pos, c.PreRet), fmt.Sprint(c.Int), string(c.Str), c.Err, string(c.ErrMsg)), func() interface{} {
+	w.NonTrivial(core.Hash64(c.Shape, cls, path, c.Custom, fmt.Sprint(c.Pos, c.PreRet, c.Method), fmt.Sprint(c.Int), string(c.Str), c.Err, string(c.ErrMsg)), func() interface{} {
 		return map[string]interface{}{"case": c, "status": spy.status, "body": core.B(spy.body), "next_handler_ran": marker == 1}
 	})
 }
@@ -357,6 +363,9 @@ func retVerdict(c *retCase, pan interface{}, ran, pre, status int, body string, 
 		return ""
 	}
 	ws, wb, wrote := retTable(c)
+	if c.Method == "HEAD" {
+		wb = "" // the status is committed as the table says, body bytes are not forwarded for HEAD (C13)
+	}
 	if !wrote {
 		if status != 0 || body != "" {
 			return fmt.Sprintf("nil/empty/zero results must write nothing; observed status %d body %q", status, body)
@@ -402,7 +411,7 @@ func runC14(r *core.Run) {
 		}
 		r.GateCounter("class:"+s+"/non-empty", 50)
 	}
-	for _, k := range []string{"class:string/zero", "class:named/zero", "class:bytes/nil", "class:*string/nil", "class:*bytes/nil", "class:iface/nil", "class:error/error", "class:error/zero", "class:int,error/error", "class:string,error/error", "class:bytes,error/error", "class:int,string/zero", "class:int,bytes/nil", "path:fast", "path:reflective", "custom:app", "custom:request", "custom:request-late", "silent-handlers-returned-values"} {
+	for _, k := range []string{"class:string/zero", "class:named/zero", "class:bytes/nil", "class:*string/nil", "class:*bytes/nil", "class:iface/nil", "class:error/error", "class:error/zero", "class:int,error/error", "class:string,error/error", "class:bytes,error/error", "class:int,string/zero", "class:int,bytes/nil", "path:fast", "path:reflective", "custom:app", "custom:request", "custom:request-late", "silent-handlers-returned-values", "method:HEAD", "method:GET"} {
 		r.GateCounter(k, 50)
 	}
 	r.Gate("distinct_nontrivial", r.NonTrivialCount(), 2000)
